@@ -820,6 +820,14 @@ class Executor:
 
     # ------------------------------------------------------------------ calls
     def ev_Call(self, e: ast.Call, st: State):
+        # dict.fromkeys(<iterable>, <immutable constant>) is the comprehension {k: <constant> for k in <iterable>}
+        if (isinstance(e.func, ast.Attribute) and e.func.attr == "fromkeys" and isinstance(e.func.value, ast.Name) and e.func.value.id == "dict"
+                and len(e.args) == 2 and not e.keywords and isinstance(e.args[1], ast.Constant) and not isinstance(e.args[1].value, (bytes,))):
+            k = ast.Name(id="__fromkeys_k", ctx=ast.Load())
+            comp = ast.DictComp(key=k, value=e.args[1], generators=[ast.comprehension(target=ast.Name(id="__fromkeys_k", ctx=ast.Store()), iter=e.args[0], ifs=[], is_async=0)])
+            ast.copy_location(comp, e)
+            ast.fix_missing_locations(comp)
+            return self.ev_DictComp(comp, st)
         # evaluate callee (without forcing a value for bound methods), args, kwargs
         outs = []
         pos_nodes = [a for a in e.args if not isinstance(a, ast.Starred)]
